@@ -1104,7 +1104,16 @@ def _reduce_symbolic(it, f, seq, init):
         acc_k = seq.fold_havoc(it)
         for nm, g in inv(it, acc_k, k):
             ctx.assume(g)
-        acc2 = it.call(f, [acc_k, seq.elem(k)], {})
+        # frame condition: the step may not carry state besides the accumulator (a pre-existing container it mutates, an
+        # enclosing variable it re-binds) - rule R3 would not see it
+        from .interp import Barrier, env_chain
+        from .values import tick
+        b = Barrier('the step of a fold over a symbolic sequence (rule R3)', tick(), [id(e) for e in env_chain(getattr(f, 'env', None))], set())
+        it.barriers.append(b)
+        try:
+            acc2 = it.call(f, [acc_k, seq.elem(k)], {})
+        finally:
+            it.barriers.remove(b)
         for nm, g in inv(it, acc2, k + 1):
             ctx.check('fold/step/' + nm, g)
         raise PathEnd()
